@@ -42,6 +42,19 @@ def _solve(enc, goal, extra, timeout, solvers=("z3",), logic="QF_LIA", models=Fa
     import os, sys
     dbg = os.environ.get("VERIF_DEBUG")
     for s in solvers:
+        if local:
+            # growing neighbourhoods of the goal in the constraint graph; an
+            # `unsat` on a slice is valid for the whole system, anything else
+            # only means "look further"
+            for hops in (4, 10, 24):
+                script = enc.script(goal, extra=extra, logic=logic, models=False, prefix=prefix,
+                                    hops=hops)
+                v, mod, dt = run_solver(script, s, min(timeout, 6))
+                tot += dt
+                if dbg:
+                    sys.stderr.write("  [solve %s hops=%d prefix=%s %.2fs] %s\n" % (v, hops, prefix, dt, goal[:90]))
+                if v == "unsat":
+                    return v, mod, tot, s
         script = enc.script(goal, extra=extra, logic=(None if exact else logic),
                             models=models, exact_products=exact, prefix=prefix)
         v, mod, dt = run_solver(script, s, timeout)
